@@ -867,7 +867,34 @@ def rule_every_slot_filled(ctx, R="C01/every-slot-filled"):
     ctx.floor(R, "enumerated fill loops", n, 3)
 
 
+STREAM_WRITERS = {
+    "thread_list_stream::write": 1, "mappings::write": 1, "app_memory::write": 1, "memory_list_stream::write": 1, "exception_stream::write": 1,
+    "systeminfo_stream::write": 1, "memory_info_list_stream::write": 1, "MinidumpWriter::write_file": 8, "dso_debug::write_dso_debug_stream": 1,
+    "thread_names_stream::write": 1, "handle_data_stream::write": 1, "minidump_writer::write_soft_errors": 1,
+}
+
+
+def rule_stream_attempted(ctx, R="C01/every-stream-attempted", only=None):
+    """no stream is dropped for a reason the property does not name: every section writer is called on EVERY success path of
+    generate_dump (a writer may fail softly, but it is never skipped under an option, a size test or an earlier outcome)"""
+    b = ctx.body(R, GEN)
+    if b is None:
+        return
+    ex = Exits(b)
+    oks = ex.ok_blocks()
+    for suffix, count in sorted(STREAM_WRITERS.items()):
+        if only is not None and suffix not in only:
+            continue
+        calls = [bi for bi, t in b.calls(lambda c: (c.short or "").endswith(suffix) or (c.target or "").endswith(suffix))]
+        ctx.floor(R, "calls of %s in generate_dump" % suffix, len(calls), count)
+        skipped = [bi for bi in calls if any(must_pass(b, 0, {ob}, {bi}) is not None for ob in oks)]
+        ctx.check(bool(calls) and not skipped, R, ("unconditional", suffix), b.where(skipped[0]) if skipped else (b.where(calls[0]) if calls else None),
+                  "%s runs on every success path of generate_dump (%d call site(s))" % (suffix, len(calls)),
+                  "%s can be skipped: a success path of generate_dump does not call it — the stream is silently absent from that dump" % suffix)
+
+
 def run(ctx):
+    rule_stream_attempted(ctx)
     rule_size_origin(ctx)
     rule_dir_count(ctx)
     rule_stream_unique(ctx)
